@@ -6,7 +6,12 @@ CFG = dict(
           "EncryptSymmetric/DecryptSymmetric, EncryptPublicKey/DecryptPrivateKey, SignPrivateKey/VerifyPublicKey, and directly for "
           "aeskw.Wrap/Unwrap, the four aescbcaead AEADs (dst forms incl. in place) and padding. Exhaustive tables: algorithm x key "
           "length 1..72 x nonce length 0..32 (x tag length 0..32 on decryption), message lengths 0..80, every key kind, PKCS#7 "
-          "block sizes 2..255; sweeps of every byte position for the mutations; rapid for the rest. Non-trivial: a successful "
+          "block sizes 2..255; sweeps of every byte position for the mutations; rapid for the rest. Long sizes (classes kw.counter.2bytes/"
+          "3bytes, sym.long-message.*, sym.long-aad.*, aead.long-*): RFC 3394 key data of every block count 11..320 and of the block "
+          "counts at which a step counter n*j+i first needs a second/third byte (up to 65537 blocks) for aeskw.Wrap/Unwrap, with "
+          "misaligned neighbours, spread single-byte changes, truncations and extensions; every algorithm x entry point x message "
+          "lengths around 256/4096/65536 bytes and 344/87384 bytes (key-wrap counter carries) and associated data around 256/65536 "
+          "bits and bytes; rapid draws one case in 5..10 long (messages to 5120 bytes, associated data to 9000, key data to 12000 blocks). Non-trivial: a successful "
           "operation on a non-empty message, or a rejection case whose unmutated twin succeeded. Distinct by (entry point, algorithm, "
           "key class, lengths, mutated component and position), not by the random content.",
      assumptions=["Go standard library crypto (AES, GCM, HMAC, RSA, ECDSA, Ed25519) and golang.org/x/crypto/chacha20poly1305 are correct: they are the interoperability peers",
